@@ -433,6 +433,138 @@ def snOf (lit unit : String) : Option SN := do
   let u ← uOfStr unit
   some ⟨d, u⟩
 
+
+/-! ## expressions over numbers with units (compound operands), reverse-polish -/
+
+def binOfStr (s : String) : Option (SN → SN → Except UErr SN) :=
+  if s == "mul" then some mulSN else if s == "div" then some divSN
+  else if s == "add" then some (addSub false) else if s == "sub" then some (addSub true)
+  else if s == "rem" then some rem else if s == "min" then some (minMax false)
+  else if s == "max" then some (minMax true) else none
+
+/-- `N<literal>:<unit>` -/
+def numTok (t : String) : Option SN :=
+  if t.startsWith "N" then
+    match (t.drop 1).toString.splitOn ":" with
+    | [l, u] => snOf l u
+    | _ => none
+  else none
+
+/-- evaluate; the last token says how the result is observed:
+    `print` (a declaration value), `inspect`, `unit`, or the binary `lt` `eq` `compatible`. -/
+def runRpn (c : Bool) : List String → List SN → Except UErr (Option String)
+  | [], _ => .ok none
+  | [t], st =>
+    match t, st with
+    | "print", [a] => (printSN false c a).map some
+    | "inspect", [a] => (printSN true false a).map some
+    | "unit", [a] => .ok (some ("\"" ++ a.unit.name ++ "\""))
+    | "lt", [b, a] => (cmpSN a b).map fun o => some (boolS (o == some .lt))
+    | "eq", [b, a] => (eqSN a b).map fun r => some (boolS r)
+    | "compatible", [b, a] => .ok (some (boolS (comparable a.unit b.unit)))
+    | _, _ => .ok none
+  | t :: ts, st =>
+    match numTok t with
+    | some n => runRpn c ts (n :: st)
+    | none =>
+      match binOfStr t, st with
+      | some f, b :: a :: st' =>
+        match f a b with
+        | .ok r => runRpn c ts (r :: st')
+        | .error e => .error e
+      | _, _ => .ok none
+
+/-! ### what a number with (compound) units denotes, by the CSS ratios -/
+
+structure Qty where
+  val : Sym                      -- multiplier in base units of each dimension
+  atoms : List (String × Int)    -- sorted by name, non-zero exponents
+  deriving DecidableEq, Repr
+
+def dimName : Dim → String
+  | .length => "<length>" | .angle => "<angle>" | .time => "<time>"
+  | .frequency => "<frequency>" | .resolution => "<resolution>"
+
+def atomOf : AU → String × Sym
+  | .known k => match cssSize k with
+    | some (d, s) => (dimName d, s)
+    | none => (k.name, Sym.one)
+  | .unknown n => (s!"foo{n}", Sym.one)
+
+def addAtom (name : String) (e : Int) : List (String × Int) → List (String × Int)
+  | [] => [(name, e)]
+  | (n, k) :: r =>
+    if n = name then (if k + e = 0 then r else (n, k + e) :: r)
+    else if name < n then (name, e) :: (n, k) :: r
+    else (n, k) :: addAtom name e r
+
+def Qty.one : Qty := ⟨Sym.one, []⟩
+
+def Qty.withUnit (q : Qty) (inv : Bool) (a : AU) : Qty :=
+  let (n, s) := atomOf a
+  ⟨if inv then q.val.div s else q.val.mul s, addAtom n (if inv then -1 else 1) q.atoms⟩
+
+def unitQty (u : U) : Qty :=
+  let (n, d) := u.parts
+  d.foldl (fun q a => q.withUnit true a) (n.foldl (fun q a => q.withUnit false a) Qty.one)
+
+def snQty (x : Rat) (u : U) : Qty := let q := unitQty u; ⟨⟨q.val.q * x, q.val.k⟩, q.atoms⟩
+
+def Qty.mul (a b : Qty) : Qty := ⟨a.val.mul b.val, b.atoms.foldl (fun l (n, e) => addAtom n e l) a.atoms⟩
+def Qty.div (a b : Qty) : Qty := ⟨a.val.div b.val, b.atoms.foldl (fun l (n, e) => addAtom n (-e) l) a.atoms⟩
+
+/-- the denotation of a product/quotient expression, in exact arithmetic -/
+def specRpn : List String → List Qty → Option Qty
+  | [], [q] => some q
+  | [], _ => none
+  | t :: ts, st =>
+    if t == "inspect" then specRpn ts st else
+    match numTok t with
+    | some n => match n.num.toRat? with
+      | some x => specRpn ts (snQty x n.unit :: st)
+      | none => none
+    | none =>
+      match st with
+      | b :: a :: st' =>
+        if t == "mul" then specRpn ts (a.mul b :: st')
+        else if t == "div" then (if b.val.q = 0 then none else specRpn ts (a.div b :: st'))
+        else none
+      | _ => none
+
+def auList (s : String) : Option (List AU) :=
+  if s == "" then some [] else (s.splitOn "*").mapM auOfStrDisp
+where
+  auOfStrDisp (n : String) : Option AU :=
+    if n.startsWith "foo" then (n.drop 3).toString.toNat?.map AU.unknown else (kuOfName n).map AU.known
+
+/-- parse `Display for Unit`: ``, `a`, `a*b`, `a*b/c*d`, `a^-1`, `(a*b)^-1` -/
+def unitOfDisplay (s : String) : Option U :=
+  if s == "" then some .none
+  else if s.endsWith "^-1" then
+    let core := (s.dropEnd 3).toString
+    let core := if core.startsWith "(" then ((core.drop 1).toString.dropEnd 1).toString else core
+    (auList core).map fun d => U.mk [] d
+  else match s.splitOn "/" with
+    | [n] => (auList n).map fun n => U.mk n []
+    | [n, d] => do let n ← auList n; let d ← auList d; some (U.mk n d)
+    | _ => none
+
+/-- P̂ for products and quotients: the printed number-with-unit denotes the same quantity as the
+    expression, by the CSS ratios (tolerance: the 10 printed digits + 2⁻⁴⁰ relative). -/
+def checkQty (txt : List Char) (toks : List String) : Option Bool :=
+  match specRpn toks [] with
+  | none => none
+  | some want =>
+    let (nt, ut) := splitNum txt
+    match parseLit nt, unitOfDisplay (String.ofList ut) with
+    | some l, some u =>
+      let got := snQty l.value u
+      let scale := (unitQty u).val.q
+      let tol : Rat := absQ scale / 10000000000 + absQ want.val.q / 1099511627776
+      some (decide (got.atoms = want.atoms) && decide (got.val.k = want.val.k) &&
+            decide (absQ (got.val.q - want.val.q) ≤ tol))
+    | _, _ => some false
+
 def errS : UErr → String
   | .incompatible => "err incompatible" | .notCss => "err notcss"
   | .unsupported => "unsupported" | .tableMissing => "err table-missing"
@@ -476,6 +608,20 @@ def handle : List String → String
       | _, _ => "ok none"
     | _, _ => "bad-op"
   | ["units"] => "ok " ++ " ".intercalate (KU.all.map KU.name)
+  -- expr <c|e> <rpn…> : compound operands
+  | "expr" :: st :: toks =>
+    match runRpn (st == "c") toks [] with
+    | .ok (some s) => "ok " ++ hexEncode s
+    | .ok none => "bad-op"
+    | .error e => errS e
+  -- qcheck <hex text> <rpn…> : P̂ (value preservation) for a product/quotient expression
+  | "qcheck" :: hx :: toks =>
+    match hexDecode hx with
+    | some txt =>
+      match checkQty txt.toList toks with
+      | some b => "ok " ++ boolStr b
+      | none => "unsupported"
+    | none => "bad-op"
   | _ => "bad-op"
 
 end Grass.Units
